@@ -177,6 +177,9 @@ func (c13) server(sc core.Scenario, r *core.R) {
 	switch ck {
 	case "unary":
 		o := Go(pt, func() (string, error) {
+			if pk == 3 {
+				return main.BoomPtr(bg, pt, nil) // the nil dereference is on a pointer argument the caller sent as null
+			}
 			if sc.I("copt") == 2 {
 				return main.BoomR(bg, pt, pk) // the same method through a retry-tagged proxy field
 			}
